@@ -150,7 +150,14 @@ impl TypeVarData {
         second: InterfaceConstraints,
     ) -> InterfaceConstraints {
         for (iface_constraint, nodes) in second {
-            first.entry(iface_constraint).or_default().extend(nodes)
+            // (a type variable constrained against itself, or twice against the same one, must not
+            // double the list each time)
+            let known = first.entry(iface_constraint).or_default();
+            for node in nodes {
+                if !known.contains(&node) {
+                    known.push(node);
+                }
+            }
         }
         first
     }
